@@ -33,8 +33,11 @@ STD = [c for c in C.curves if c.name not in ("Ed25519", "Ed448")]
 _SMALL = None
 
 
+_EXTRA = False
+
+
 def small_curves():
-    """Deterministic search: prime-order curves y^2 = x^3 + ax + b over primes 11..61."""
+    """Deterministic search: prime-order curves y^2 = x^3 + ax + b over primes 11..61 (thorough: one more per prime up to 101)."""
     global _SMALL
     if _SMALL is not None:
         return _SMALL
@@ -68,6 +71,23 @@ def small_curves():
     pick(lambda f: f[0] >= 53 and f[3] < f[0] - 5, 1)
     pick(lambda f: f[0] == 11, 1)
     pick(lambda f: f[0] in (29, 31) and f[1] not in (0, f[0] - 3), 1)
+    if _EXTRA:
+        for q in [q for q in range(13, 62) if is_prime(q)]:
+            pick(lambda f, q=q: f[0] == q, 1)
+        for q in (67, 71, 73, 79, 83, 89, 97, 101):
+            for a in (0, q - 3, 5):
+                done = False
+                for b in range(1, q):
+                    if (4 * a ** 3 + 27 * b * b) % q == 0:
+                        continue
+                    cvx = EC.Curve(q, a, b)
+                    nn = len(cvx.points()) + 1
+                    if is_prime(nn):
+                        sel.append((q, a % q, b, nn))
+                        done = True
+                        break
+                if done:
+                    break
     out = []
     for p, a, b, n in sel:
         cv = EC.Curve(p, a, b)
@@ -80,6 +100,8 @@ def small_curves():
 
 
 def prepare(ctx):
+    global _EXTRA
+    _EXTRA = not ctx.quick
     small_curves()
     if not ossl.available():
         raise SystemExit("broken environment: OpenSSL CLI is required as oracle for C17")
